@@ -91,6 +91,10 @@ type world struct {
 	faultFree  bool
 	fair       bool // C04 workload shape
 	sequential bool
+	// staffed counts the workers placed on each multi-size-class queue;
+	// flaky runs have workers that forget their task often.
+	staffed map[*queueSpec]int
+	flaky   bool
 	// demux: routers registered with the DemultiplexingActionRouter.
 	demux   []demuxEntry
 	demuxOn bool
@@ -225,7 +229,7 @@ var (
 func pick[T any](t *simsync.Tape, xs []T) T { return xs[t.Choice(len(xs))] }
 
 func newWorld(r *simrun.Run, prop string) *world {
-	w := &world{r: r, k: r.K, t: r.T, prop: prop, byHash: map[string]*actionSpec{}}
+	w := &world{r: r, k: r.K, t: r.T, prop: prop, byHash: map[string]*actionSpec{}, staffed: map[*queueSpec]int{}}
 	t := w.t
 	w.clock = simenv.NewSimClock(w.k, startTime)
 
@@ -393,6 +397,7 @@ func (w *world) run() {
 	k := w.k
 	nc := 1 + t.Choice(4)
 	nw := 1 + t.Choice(4)
+	w.flaky = t.Bool(1, 3)
 	w.maxOps = 3 + t.Choice(10)
 	if w.fair {
 		nc = 3 + t.Choice(6)
